@@ -88,9 +88,15 @@ def session (e : Dl.Env) (file : Bytes) (valid : List Int) (lines frags : List B
 def accepted (rets : List Nat) (frags : List Bytes) : Bool :=
   rets.length == frags.length && (rets.zip frags).all (fun (r, f) => r == f.length)
 
+/-- the connection drops after `n` body bytes (`none`: the whole body arrives) -/
+def cutBody (cut : Option Nat) (b : Bytes) : Bytes :=
+  match cut with
+  | some n => b.take n
+  | none => b
+
 /-- one round of the fetch loop: request, response, callbacks.  `none` = the request could not be made or served -/
-def round (H : HashFn) (rx : Dl.Rx) (B : Bytes) (th : Hdr) (limit : Int) (frag : Nat) (file : Bytes) (valid : List Int) :
-    String × Option (Bytes × List Int × Bool) :=
+def round (H : HashFn) (rx : Dl.Rx) (B : Bytes) (th : Hdr) (limit : Int) (frag : Nat) (cut : Option Nat) (file : Bytes)
+    (valid : List Int) : String × Option (Bytes × List Int × Bool) :=
   let rst := reqOf th limit valid
   let rtext := if rst.items.isEmpty then "" else (Range.render rst.items).getD ""
   if rtext.isEmpty then ("-", none) else
@@ -99,24 +105,26 @@ def round (H : HashFn) (rx : Dl.Rx) (B : Bytes) (th : Hdr) (limit : Int) (frag :
   | some rs =>
     let resp := respond B rs
     let e : Dl.Env := { H := H, rx := rx, hdr := th, ridx := Dl.mkRidx rst.index 0 }
-    let frags := pieces frag resp.2
+    -- `cut`: the connection drops after that many body bytes (the client retries in the next round)
+    let frags := pieces frag (cutBody cut resp.2)
     let s := session e file valid resp.1 frags
     if ¬ accepted s.1 resp.1 then (rtext, none)
     else (rtext, some (s.2.2.file, s.2.2.valid, accepted s.2.1 frags))
 
 /-- the fetch loop; fuel bounds the number of rounds (each successful round validates at least one chunk) -/
-def loop (H : HashFn) (rx : Dl.Rx) (B : Bytes) (th : Hdr) (limit : Int) (frag : Nat) :
+def loop (H : HashFn) (rx : Dl.Rx) (B : Bytes) (th : Hdr) (limit : Int) (frag : Nat) (drop : Option (Nat × Nat)) :
     Nat → Bytes → List Int → List String → Nat → (Bytes × List Int × List String × Nat × Option String)
   | 0, file, valid, reqs, n => (file, valid, reqs.reverse, n, some "no-progress")
   | fuel + 1, file, valid, reqs, n =>
     if countEq valid 0 = 0 then (file, valid, reqs.reverse, n, none) else
-    match round H rx B th limit frag file valid with
+    match round H rx B th limit frag (match drop with | some (r, c) => if r = n + 1 then some c else none | none => none) file valid with
     | (r, none) => (file, valid, (r :: reqs).reverse, n + 1, some "download")
     | (r, some (f, v, false)) => (f, v, (r :: reqs).reverse, n + 1, some "download")
-    | (r, some (f, v, true)) => loop H rx B th limit frag fuel f v (r :: reqs) (n + 1)
+    | (r, some (f, v, true)) => loop H rx B th limit frag drop fuel f v (r :: reqs) (n + 1)
 
 /-- the whole procedure on target bytes `tgt0`, old file `A` (optional), new file `B` on the server -/
-def update (H : HashFn) (rx : Dl.Rx) (A : Option Bytes) (B tgt0 : Bytes) (limit : Int) (frag : Nat) : Out :=
+def update (H : HashFn) (rx : Dl.Rx) (A : Option Bytes) (B tgt0 : Bytes) (limit : Int) (frag : Nat)
+    (drop : Option (Nat × Nat) := none) : Out :=
   let minDl := Zck.Gen.MIN_DOWNLOAD_SIZE
   -- dl_header: the first request is for [0, minDl); the descriptor is at 0
   let t1 := Copy.writeAt tgt0 0 (B.take minDl)
@@ -147,7 +155,7 @@ def update (H : HashFn) (rx : Dl.Rx) (A : Option Bytes) (B tgt0 : Bytes) (limit 
         | none => ⟨t2, c.valid⟩
       let valid := t.valid.map fun v => if v == -1 then 0 else v
       let o := { o with copy := some valid }
-      let (file, valid, reqs, n, err) := loop H rx B th limit frag (th.chunks.length + 2) t.f valid [] 0
+      let (file, valid, reqs, n, err) := loop H rx B th limit frag drop (th.chunks.length + 3) t.f valid [] 0
       let o := { o with reqs := reqs, rounds := n, file := file }
       match err with
       | some e => { o with err := some e }
